@@ -110,9 +110,10 @@ def make_scenario(job, groups):
         processed = []
         topics = ["t", "u"] if job.get("two_topics") else ["t"]
         g = ConsumerGroup(client, "grp", list(topics), lambda c, msgs: processed.extend(msgs), session_timeout_ms=30000,
-                          heartbeat_interval_ms=5000, initial_backoff_ms=int(INITIAL_S * 1000), retry_backoff_ms=int(RETRY_S * 1000),
+                          heartbeat_interval_ms=5000, initial_backoff_ms=int(INITIAL_S * 1000), retry_backoff_ms=int(job.get("retry_s", RETRY_S) * 1000),
                           fatal_backoff_ms=int(FATAL_S * 1000),
-                          consumer_kwargs=dict(auto_commit_every_n=(1 if job.get("autocommit") else 0), auto_commit_every_ms=0))
+                          consumer_kwargs=dict(auto_commit_every_n=(1 if job.get("autocommit") else 0), auto_commit_every_ms=0,
+                                               **({"request_retry_max_attempts": 1} if job.get("sync_offset_reject") else {})))
         ctx.sig("group prefix=%s leader=%s last_fault=none" % (job.get("prefix", "fresh"), job.get("leader")))
         start_res = []
 
@@ -163,6 +164,15 @@ def make_scenario(job, groups):
                 )
             if kind == "offset_fetch" and "fence" in groups:
                 ctx.check(p.args["group"] == "grp", "consumer-starts-from-committed-position")
+            if kind == "offset_fetch" and job.get("sync_offset_reject") and not st.get("sync_rejected"):
+                # the coordinator has already moved on: the first committed-offset lookup of the new consumers is refused before
+                # the request call returns (and the consumers are configured with a single attempt), so the consumer's failure
+                # reaches the group while it is still inside on_join_complete
+                st["sync_rejected"] = True
+                st["stable"] = False  # (the assignment is left as it is: the remaining consumers of this generation are still
+                # being created by on_join_complete and are shut down by the re-join that follows)
+                fail_with(p, "unknown_member")
+                return
             if kind in ("offset_fetch", "offset"):
                 auto.append(p)
             if kind == "fetch":
@@ -252,7 +262,7 @@ def make_scenario(job, groups):
             ctx.check(bool(dcs), "retriable-error-schedules-rejoin", "%s on %s: no rejoin scheduled" % (name, p_kind))
             if dcs and name in EXPECTED_DELAY:
                 d = min(dc.getTime() for dc in dcs) - clock.seconds()
-                exp = EXPECTED_DELAY[name]
+                exp = EXPECTED_DELAY[name] if EXPECTED_DELAY[name] != RETRY_S else job.get("retry_s", RETRY_S)
                 if p_kind == "coordinator":
                     exp = {"coordinator_not_available": INITIAL_S, "not_coordinator": INITIAL_S, "timeout": FATAL_S}.get(name, FATAL_S)
                 if st.get("timer_before_fault"):
